@@ -400,8 +400,27 @@ Proof.
   - cbn [map fold_left]. eexists _, _, _, _, _, _, _, _. split; [reflexivity|split; [exact I1|exact GI1]].
 Qed.
 
+(* the spacing hypothesis without `end <= next start`: a cue may end after the next one starts (the writer then drops its
+   clear line; the next load's EDM closes it) *)
+Fixpoint spaced_w (prev_start : Q) (caps : list wcap) : Prop :=
+  match caps with
+  | [] => True
+  | c :: t => (prev_start <= w_start c - cap_words c * mpc)%Q /\ (w_start c <= w_end c)%Q /\ spaced_w (w_start c) t
+  end.
+Lemma spaced_w_of : forall caps p, caps_spaced p caps -> spaced_w p caps.
+Proof. induction caps as [|c t IH]; intros p S; [exact I|]. destruct S as (S1 & S2 & _ & S4). cbn [spaced_w]. auto. Qed.
+Lemma spaced_w_each : forall caps prev, (0 <= prev)%Q -> spaced_w prev caps ->
+  Forall (fun c => (0 <= w_start c - cap_words c * mpc)%Q /\ (0 <= w_start c)%Q /\ (0 <= w_end c)%Q) caps.
+Proof.
+  induction caps as [|c t IH]; intros prev P S; [constructor|]. destruct S as (S1 & S2 & S4).
+  assert (CW : (0 <= cap_words c * mpc)%Q).
+  { apply Qmult_le_0_compat; [|pose proof mpc_pos; lra]. unfold cap_words.
+    destruct (text_to_words (w_text c)); [|lra]. change 0%Q with (inject_Z 0). rewrite <- Zle_Qle. lia. }
+  constructor; [split; [lra|split; lra]|]. apply (IH (w_start c)); [lra|exact S4].
+Qed.
+
 Lemma items_run : forall caps out, Forall2 good caps out ->
-  forall p, (0 <= p)%Q -> caps_spaced p caps -> Forall cap_dom caps -> Forall has_word caps -> Forall below_100h caps ->
+  forall p, (0 <= p)%Q -> spaced_w p caps -> Forall cap_dom caps -> Forall has_word caps -> Forall below_100h caps ->
   forall done st tk ds nodes q tm tc frm, qinv done st q -> ginv p st q ->
   exists st' tk' ds' nodes' q' tm' tc' fr' p',
     fold_left translate_line (map to_sline (map pline (flat_map item_ls out))) (ST0 st tk LNone ds nodes q tm tc frm)
@@ -409,8 +428,8 @@ Lemma items_run : forall caps out, Forall2 good caps out ->
 Proof.
   intros caps out G. induction G as [|cap y caps out Gy G IH]; intros p P0 S D HW H100 done st tk ds nodes q tm tc frm I GI.
   - cbn [flat_map map fold_left]. rewrite app_nil_r. eexists _, _, _, _, _, _, _, _, p. split; [reflexivity|split; assumption].
-  - pose proof (caps_spaced_each (cap :: caps) p P0 S) as Each. inversion Each as [|? ? (E1 & E2 & E3) _]; subst.
-    destruct S as (S1 & S2 & _ & S4).
+  - pose proof (spaced_w_each (cap :: caps) p P0 S) as Each. inversion Each as [|? ? (E1 & E2 & E3) _]; subst.
+    destruct S as (S1 & S2 & S4).
     inversion D as [|? ? Dc Dt]; subst. inversion HW as [|? ? Wc Wt]; subst. inversion H100 as [|? ? Hc Ht]; subst.
     cbn [flat_map]. rewrite !map_app, fold_left_app.
     destruct (item_run cap y p Gy Dc Wc Hc P0 S1 E2 S2 done st tk ds nodes q tm tc frm I GI)
@@ -437,9 +456,13 @@ Proof.
 Qed.
 
 Definition caps_ok (caps : list wcap) : Prop :=
-  Forall cap_dom caps /\ caps_spaced 0 caps /\ Forall has_word caps /\ Forall below_100h caps.
+  Forall cap_dom caps /\ spaced_w 0 caps /\ Forall has_word caps /\ Forall below_100h caps.
 
-Lemma doc_lines : forall caps doc, write caps = Ok doc -> Forall cap_dom caps -> caps_spaced 0 caps ->
+Lemma caps_ok_of_composed : forall caps, Forall cap_dom caps -> caps_spaced 0 caps -> Forall has_word caps ->
+  Forall below_100h caps -> caps_ok caps.
+Proof. intros caps D S W H. split; [exact D|split; [apply spaced_w_of; exact S|split; assumption]]. Qed.
+
+Lemma doc_lines : forall caps doc, write caps = Ok doc -> Forall cap_dom caps -> spaced_w 0 caps ->
   exists out, Forall2 good caps out /\ parse_document doc = Some (map pline (flat_map item_ls out)).
 Proof.
   intros caps doc W D S. unfold write in W.
@@ -448,7 +471,7 @@ Proof.
   destruct (caps_wcodes caps codes R D) as (wcodes & Ec & F1). subst codes.
   destruct (pass2_items wcodes) as (out & Ep & F2).
   pose proof (good_compose caps wcodes out F1 F2) as G.
-  pose proof (caps_spaced_each caps 0 (Qle_refl 0) S) as Each.
+  pose proof (spaced_w_each caps 0 (Qle_refl 0) S) as Each.
   exists out. split; [exact G|].
   assert (LS : forall l, In l (flat_map item_ls out) ->
                (0 <= fst (fst l))%Q /\ forallb byte_ok (snd (fst l)) = true /\ byte_ok (snd l) = true).
@@ -473,7 +496,13 @@ Theorem reread_stash : forall caps, caps_ok caps ->
               /\ Forall (fun pc => is_flash pc = false /\ short (cap_text pc) = true) (st_caps stf).
 Proof.
   intros caps (D & S & HW & H100).
-  destruct (SccRoundTripFacts.reread_input_ok caps D S) as (doc & lines0 & W & _).
+  assert (Wk : exists doc, write caps = Ok doc).
+  { pose proof (spaced_w_each caps 0 (Qle_refl 0) S) as Each.
+    assert (Hc : forall c, In c caps -> (0 <= w_start c)%Q /\ (0 <= w_end c)%Q /\ (length (layout_rows (w_text c)) <= 15)%nat).
+    { rewrite Forall_forall in Each, D. intros c Hc. destruct (Each c Hc) as (_ & E2 & E3). destruct (D c Hc) as [_ Dr]. auto. }
+    destruct (SccRoundTripFacts.reread_reaches_reader caps Hc) as (lines0 & R0 & _). unfold reread in R0.
+    destruct (write caps) as [doc|e]; [exists doc; reflexivity|discriminate]. }
+  destruct Wk as (doc & W).
   destruct (doc_lines caps doc W D S) as (out & G & PD).
   unfold reread. rewrite W, PD.
   destruct (items_run caps out G 0%Q (Qle_refl 0) S D HW H100 [] stash0 tracker0 false [] None 0%Q (lit "00:00:00;00") 0
